@@ -3,6 +3,7 @@ import Account.Borsh
 # The two concrete borsh account types of the harness (`harness/hx-progacct/src/progs.rs`)
 
 * `Fix { a: u16, b: u8 }` — fixed size (3 bytes);
+* `Unit` — a unit struct, EMPTY serialization (an account of this type is exactly its discriminant);
 * `Var { tag: u8, bytes: Vec<u8>, name: String }` — variable size (`u32` length prefixes; the
   `String` must be valid UTF-8, as `String::from_utf8` checks).
 
@@ -15,6 +16,7 @@ open Common
 inductive Val
   | fix (a b : Nat)
   | var (tag : Nat) (bytes name : List Nat)
+  | unit
 deriving Repr, DecidableEq
 
 def isCont (b : Nat) : Bool := decide (0x80 ≤ b) && decide (b ≤ 0xBF)
@@ -46,6 +48,7 @@ def utf8Valid : List Nat → Bool
 def serVal : Val → List Nat
   | .fix a b => leN 2 a ++ leN 1 b
   | .var tag bytes name => [tag] ++ (leN 4 bytes.length ++ (bytes ++ (leN 4 name.length ++ name)))
+  | .unit => []
 
 /-- `Fix::try_from_slice`. -/
 def deFix (l : List Nat) : Option Val :=
@@ -67,6 +70,13 @@ def deVar : List Nat → Option Val
     let r3 := r2.drop 4
     if r3.length ≠ m then none else
     if utf8Valid r3 then some (.var tag bytes r3) else none
+
+/-- `Unit` (a unit struct: empty serialization). -/
+def unitCodec : Codec Val where
+  ser := serVal
+  de := fun l => if l = [] then some .unit else none
+  objLen := fun v => (serVal v).length
+  valid := fun v => v = .unit
 
 def fixCodec : Codec Val where
   ser := serVal
